@@ -682,10 +682,59 @@ func (c *FnCtx) convertTo(st *State, v *Term, from, to types.Type) *Term {
 	}
 	if _, ok := types.Unalias(to).Underlying().(*types.Interface); ok {
 		if _, isTP := types.Unalias(to).(*types.TypeParam); !isTP {
-			return c.toInterface(st, v, from).withGo(to)
+			r := c.toInterface(st, v, from).withGo(to)
+			c.ifaceSnapshot(st, r, from, to)
+			return r
 		}
 	}
 	return v
+}
+
+// ifaceSnapshot: when a pointer to a repository struct is converted to a repository interface, the interface's observer
+// functions take the values the accessor methods return now (accessor contract: `ensures result == <expression over the
+// receiver>`). Sound for objects whose fields are not written after the conversion (the types concerned are @immutable).
+func (c *FnCtx) ifaceSnapshot(st *State, ref *Term, from, to types.Type) {
+	if from == nil || !isPointer(from) || !isRepoStruct(deref(from)) {
+		return
+	}
+	itn, ok := types.Unalias(to).(*types.Named)
+	if !ok || !isRepoPkg(itn.Obj().Pkg()) {
+		return
+	}
+	it, _ := itn.Underlying().(*types.Interface)
+	if it == nil {
+		return
+	}
+	for i := 0; i < it.NumMethods(); i++ {
+		m := it.Method(i)
+		obj, _, _ := types.LookupFieldOrMethod(from, true, m.Pkg(), m.Name())
+		fn, ok := obj.(*types.Func)
+		if !ok {
+			continue
+		}
+		key := funcKey(fn)
+		ct := c.eng.contracts[key]
+		fi := c.eng.funcs[key]
+		if ct == nil || fi == nil || len(ct.Ensures) == 0 {
+			continue
+		}
+		en := ct.Ensures[0].Expr
+		if !(en.Kind == "binary" && en.Name == "==" && en.Args[0].Kind == "ident" && en.Args[0].Name == "result") {
+			continue
+		}
+		fsig := fi.Obj.Type().(*types.Signature)
+		if fsig.Params().Len() != 0 || fsig.Results().Len() != 1 || fsig.Recv() == nil {
+			continue
+		}
+		env := map[string]*Term{fsig.Recv().Name(): ref.withGo(fsig.Recv().Type())}
+		val := c.specEval(st, en.Args[1], env, nil)
+		ikey := funcKey(m)
+		rs := c.pureApp(st, ikey, m.Type().(*types.Signature), ref, nil)
+		if len(rs) == 1 && rs[0].Sort == val.Sort {
+			st.assume(mkImplies(mkNot(mkEq(ref, intLit(0))), mkEq(rs[0], val)))
+			c.assumptionsUsed["observer functions of "+itn.Obj().Name()+" snapshot the accessor results at the conversion (objects of "+deref(from).String()+" are not written afterwards)"] = true
+		}
+	}
 }
 
 func (c *FnCtx) evalCompositeLit(st *State, x *ast.CompositeLit, addr bool) *Term {
